@@ -66,7 +66,15 @@ func RandomProgram(seed uint64, o RandomOpts) *Program {
 		j := r.n(i + 1)
 		pool[i], pool[j] = pool[j], pool[i]
 	}
+	// names that coincide with names the generated code uses internally; each at most once per file
+	reserved := []string{"value", "key", "active", "elems", "attrs", "unknown", "null", "attr_types", "elem_type"}
 	fieldName := func() string {
+		if len(reserved) > 0 && r.p(1, 10) {
+			i := r.n(len(reserved))
+			n := reserved[i]
+			reserved = append(reserved[:i], reserved[i+1:]...)
+			return n
+		}
 		nameN++
 		l := letters(pool[(nameN-1)%len(pool)] + 200*((nameN-1)/len(pool)))
 		switch r.n(5) {
@@ -521,6 +529,32 @@ func RandomConfig(p *Program, seed uint64) Config {
 		return out
 	}
 	c.ComputedFields, c.RequiredFields, c.SensitiveFields = addPair(c.ComputedFields), addPair(c.RequiredFields), addPair(c.SensitiveFields)
+	// the deepest paths there are, without anything above them
+	var deepest []string
+	maxDots := 0
+	for _, pk := range paths {
+		if d := strings.Count(pk, "."); d > maxDots {
+			maxDots, deepest = d, nil
+		}
+		if strings.Count(pk, ".") == maxDots {
+			deepest = append(deepest, pk)
+		}
+	}
+	addOrphan := func(l []string) []string {
+		if maxDots < 3 || r.p(1, 3) {
+			return l
+		}
+		k := deepest[r.n(len(deepest))]
+		for _, x := range l {
+			if x == k {
+				return l
+			}
+		}
+		l = append(l, k)
+		sort.Strings(l)
+		return l
+	}
+	c.ComputedFields, c.RequiredFields, c.SensitiveFields = addOrphan(c.ComputedFields), addOrphan(c.RequiredFields), addOrphan(c.SensitiveFields)
 	c.Sort = r.p(1, 2)
 	c.UseStateForUnknownByDefault = r.p(1, 2)
 	c.TimeType, c.DurationType, c.DurationCustomType = SimTimeType, SimDurationType, DurationCastName
